@@ -70,6 +70,10 @@ def setTraining (t : Bool) : InnerLayer α → InnerLayer α
 def training : InnerLayer α → Bool
   | .dense l => l.training | .conv l => l.training | .deconv l => l.training | .maxpool _ => false
 
+/-- the dropout flag of an inner layer, if it has one (a max-pool has none) -/
+def flag? : InnerLayer α → Option Bool
+  | .dense l => some l.training | .conv l => some l.training | .deconv l => some l.training | .maxpool _ => none
+
 def parameters : InnerLayer α → Except Err Nat
   | .dense l => l.parameters
   | .conv l => .ok l.parameters
@@ -298,7 +302,7 @@ def flags : Layer α → List Bool
   | .conv l => [l.training]
   | .deconv l => [l.training]
   | .maxpool _ => []
-  | .feedback l => l.layers.map InnerLayer.training
+  | .feedback l => l.layers.filterMap InnerLayer.flag?
 
 end Layer
 
